@@ -11,9 +11,11 @@ REQUIREMENT = "calc_duration(HH:MM, HH:MM) = H:MM:SS of ((end - start) mod 1440)
 
 
 def hm(m): return "%02d:%02d" % divmod(m % 1440, 60)
+@lib.bounded
 def impl(a, b):
     try: return "ok " + tools.calc_duration(a, b)
     except Exception: return "raised"
+@lib.bounded
 def impl_kw(a, b, form):
     """the same call spelled with keywords, in either order, or from a dict"""
     try:
@@ -44,10 +46,13 @@ def run(tier, rnd, out):
     from aioswitcher.schedule.parser import SwitcherSchedule
     from aioswitcher.schedule import Days
     objs = []; oc_ = []
+    @lib.bounded
+    def make(*a):
+        try: return SwitcherSchedule(*a)
+        except Exception: return None
     for _ in range(300 if tier == "quick" else 5000):
         sid = str(rnd.randrange(8)); a = hm(rnd.randrange(1440)); b = hm(rnd.choice([rnd.randrange(1440), rnd.randrange(1440), int(a[:2]) * 60 + int(a[3:])]))
-        try: o = SwitcherSchedule(sid, rnd.random() < .5, set(rnd.sample(list(Days), rnd.randrange(0, 3))), a, b)
-        except Exception: o = None
+        o = make(sid, rnd.random() < .5, set(rnd.sample(list(Days), rnd.randrange(0, 3))), a, b)
         objs.append(o); oc_.append({"slot": sid, "start": a, "end": b})
     import dataclasses
     for k in range(0, len(objs) - 1, 5):          # every fifth schedule is derived from its predecessor with dataclasses.replace
@@ -100,10 +105,10 @@ def run(tier, rnd, out):
             for e in range(1440):
                 n += 1
                 want = "%d:%02d:00" % divmod((e - s) % 1440, 60)
-                if tools.calc_duration(a, hm(e)) != want and bad is None: bad = (a, hm(e), want)
+                if bad is None and impl(a, hm(e)) != "ok " + want: bad = (a, hm(e), "ok " + want)
         out.stream("all-pairs-vs-formula", n); out.exhaustive = True
         if bad: out.failing.append({"stream": "all-pairs-vs-formula", "describe": "calc_duration(%r, %r)" % bad[:2], "input": {"start": bad[0], "end": bad[1]},
-                                    "impl": tools.calc_duration(bad[0], bad[1]), "expected": bad[2]})
+                                    "impl": impl(bad[0], bad[1]), "expected": bad[2]})
 
 
 def replay(rp, out):
